@@ -911,6 +911,7 @@ func main() {
 	c.Rule += " Claim secret race: two claims naming the same connection secret, served by ONE claim reconciler; the non-owning claim parked before each API call while the owning one is reconciled; the secret must equal that of the sequential run. Behind-cache variant: the controller's reads of the planted kind are frozen at the state before the foreign object appeared (Create hits AlreadyExists). Variants per planted object: foreign controller / look-alike foreign controller / foreign controller with the legitimate owner kept as a plain owner / bare unrelated object without Crossplane labels or annotations / uncontrolled; after each foreign variant the legitimate owner is deleted and the site runs again (no conflict report required then). P&T resources are named through a patch to metadata.name; re-parenting cases also run with anonymous P&T templates."
 	c.Rule += " " + "Long-lived reconcilers over histories: the XR's connection secret deleted and re-created by a foreign owner while details rotate; a package deleted and re-created under its name while a revision controlled by its predecessor remains (Active / Inactive, with an upgrade)."
 	c.Rule += " " + "A composed resource taken over behind the XR controller's frozen cache (function composer judged; legacy P&T composer and takeovers between two API calls of a reconcile counted only); RBAC sites re-run after the owning revision retired (Inactive, deployment gone)."
+	c.Rule += " " + "An inactive revision releasing its objects again after the next revision took control; foreign-controlled objects whose first owner reference is a plain owner with controller:false."
 	c.Assumptions = []string{"sim rejects a second controller reference (422) - the mechanism the SSA composer relies on", "objects created in the probe run are the objects the site writes; sites listed in DESIGN.md C02"}
 	c.Floor = 20
 	rounds := c.N(20, 300)
